@@ -18,7 +18,9 @@ func init() { runners["C14"] = runC14 }
 func valIn(fd protoreflect.FieldDescriptor, v protoreflect.Value, l protoreflect.List) bool {
 	for i := 0; i < l.Len(); i++ {
 		if fd.Kind() == protoreflect.MessageKind {
-			if proto.Equal(v.Message().Interface(), l.Get(i).Message().Interface()) {
+			// persons and external references are identified the way Node.Equal identifies them: by
+			// their flat strings (which tell a person with absent contacts from one with none)
+			if sameMessage(v.Message().Interface(), l.Get(i).Message().Interface()) {
 				return true
 			}
 		} else if v.Equal(l.Get(i)) {
@@ -26,6 +28,20 @@ func valIn(fd protoreflect.FieldDescriptor, v protoreflect.Value, l protoreflect
 		}
 	}
 	return false
+}
+
+func sameMessage(a, b proto.Message) bool {
+	switch x := a.(type) {
+	case *sbom.Person:
+		if y, ok := b.(*sbom.Person); ok {
+			return x.VerifFlatString() == y.VerifFlatString()
+		}
+	case *sbom.ExternalReference:
+		if y, ok := b.(*sbom.ExternalReference); ok {
+			return x.VerifFlatString() == y.VerifFlatString()
+		}
+	}
+	return proto.Equal(a, b)
 }
 
 func unixOf(m protoreflect.Message, fd protoreflect.FieldDescriptor) (int64, bool) {
@@ -75,7 +91,7 @@ func sameAttr(fd protoreflect.FieldDescriptor, a, b protoreflect.Message) bool {
 
 // rebuild applies the reported additions and removals to a copy of a, attribute by attribute.
 func rebuild(a *sbom.Node, d *sbom.NodeDiff) *sbom.Node {
-	out := proto.Clone(a).(*sbom.Node)
+	out := cloneNode(a) // proto.Clone alone turns an empty contact list into an absent one
 	o, ad, rm := out.ProtoReflect(), d.Added.ProtoReflect(), d.Removed.ProtoReflect()
 	fds := o.Descriptor().Fields()
 	for i := 0; i < fds.Len(); i++ {
